@@ -120,15 +120,22 @@ func VH_C02_ReadBack() {
 	// a nested index: image 2 and an index over it by digest only, an index over that
 	// index by tag (children and grandchildren live in the child list, which a restart
 	// rebuilds from the index blobs)
-	idxA := vhIndexDoc([]types.Descriptor{vhDesc(types.MediaTypeOCI1Manifest, w.img2)}, nil, "")
+	img3 := vhImage(vhDesc(types.MediaTypeOCI1ImageConfig, w.conf), []types.Descriptor{vhDesc(types.MediaTypeOCI1Layer, w.layer)}, nil, "", map[string]string{"v": "3"})
+	dImg3 := digest.Canonical.FromBytes(img3)
+	idxA := vhIndexDoc([]types.Descriptor{vhDesc(types.MediaTypeOCI1Manifest, img3)}, nil, "")
 	idxB := vhIndexDoc([]types.Descriptor{vhDesc(types.MediaTypeOCI1ManifestList, idxA)}, nil, "")
 	dIdxA, dIdxB := digest.Canonical.FromBytes(idxA), digest.Canonical.FromBytes(idxB)
-	vh.Assert(vhPutManifest(w.s, "a", w.dImg2.String(), types.MediaTypeOCI1Manifest, w.img2).Status() == 201 &&
+	// the bytes of image 2 are in the repository as a plain blob only (uploaded through
+	// the blob API): a later push of that manifest by digest must make it a manifest
+	_, cBlob := vhPushBlob(w.s, "a", w.img2)
+	vh.Assert(cBlob == 201, "C02.setup")
+	vh.Assert(vhPutManifest(w.s, "a", dImg3.String(), types.MediaTypeOCI1Manifest, img3).Status() == 201 &&
 		vhPutManifest(w.s, "a", dIdxA.String(), types.MediaTypeOCI1ManifestList, idxA).Status() == 201 &&
 		vhPutManifest(w.s, "a", "tn", types.MediaTypeOCI1ManifestList, idxB).Status() == 201, "C02.setup")
 	w.rec.names = nil
 	items := []vhItem{
-		{"a", w.dImg2.String(), w.img2, w.dImg2, types.MediaTypeOCI1Manifest},
+		{"a", w.dImg2.String(), w.img2, w.dImg2, ""},
+		{"a", dImg3.String(), img3, dImg3, types.MediaTypeOCI1Manifest},
 		{"a", dIdxA.String(), idxA, dIdxA, types.MediaTypeOCI1ManifestList},
 		{"a", dIdxB.String(), idxB, dIdxB, types.MediaTypeOCI1ManifestList},
 		{"a", "tn", idxB, dIdxB, types.MediaTypeOCI1ManifestList},
@@ -210,7 +217,7 @@ func VH_C02_ReadBack() {
 	// that changed repository a; other paths cannot affect them (cost cut, stated)
 	nestedMatters := restart || (r.repo == "a" && (code == 201 || code == 202))
 	for _, it := range keep {
-		if !nestedMatters && (it.dig == w.dImg2 || it.dig == dIdxA || it.dig == dIdxB) {
+		if !nestedMatters && (it.dig == dImg3 || it.dig == dIdxA || it.dig == dIdxB) {
 			continue
 		}
 		vhReadBack(w.s, it, acc)
